@@ -8,12 +8,14 @@ def rng(D, b, lo, hi):
         return D.decide(z3.And(z3.UGE(b, lo), z3.ULE(b, hi)))
     return lo <= b <= hi
 
-def utf8_valid(D, items):
+def utf8_valid(D, items, segments=None):
+    """segments (optional list): receives (start, length) of every scalar value"""
     i = 0
     n = len(items)
     while i < n:
         b = items[i]
         if rng(D, b, 0x00, 0x7f):
+            if segments is not None: segments.append((i, 1))
             i += 1; continue
         if rng(D, b, 0xc2, 0xdf):
             need = [(0x80, 0xbf)]
@@ -34,5 +36,6 @@ def utf8_valid(D, items):
         for k, (lo, hi) in enumerate(need):
             if i + 1 + k >= n or not rng(D, items[i + 1 + k], lo, hi):
                 return False
+        if segments is not None: segments.append((i, 1 + len(need)))
         i += 1 + len(need)
     return True
